@@ -98,16 +98,17 @@ Register(s) ==
   /\ pc[s] = "locked"
   /\ IF closedSend
        THEN /\ pc' = [pc EXCEPT ![s] = "ret"] /\ res' = [res EXCEPT ![s] = "closed"] /\ lock' = None
-            /\ UNCHANGED <<pending, wif, regs>>
+            /\ UNCHANGED <<pending, wif, regs, cblog>>
        ELSE IF Cur(s) \in pending
        THEN /\ pc' = [pc EXCEPT ![s] = "ret"] /\ res' = [res EXCEPT ![s] = "dup"] /\ lock' = None
-            /\ UNCHANGED <<pending, wif, regs>>
+            /\ UNCHANGED <<pending, wif, regs, cblog>>
        ELSE /\ pending' = pending \cup {Cur(s)} /\ regs' = [regs EXCEPT ![Cur(s)] = @ + 1]
             /\ pc' = [pc EXCEPT ![s] = "writing"] /\ wif' = [s |-> s, n |-> Cur(s), ph |-> 1]
+            /\ cblog' = Append(cblog, <<Cur(s), "reg", s, idx[s]>>)     \* whose callback is now registered under this name
             /\ UNCHANGED <<res, lock>>
   /\ UNCHANGED <<idx, closedSend, err, terminated, done, stdinR, wof, rpartial, outClosed,
                  rpc, rmsg, rerr, seen, cpc, cop, cret, cops, inbox, aborted, exitFail, readPh, pipesClosed, pdone,
-                 kpc, wpc, wres, cbs, cblog, hist>>
+                 kpc, wpc, wres, cbs, hist>>
 
 \* both writes were taken by the client
 WriteDone(s) ==
@@ -303,15 +304,21 @@ Lookup ==
                  cpc, cop, cret, cops, inbox, aborted, exitFail, readPh, pipesClosed, pdone,
                  kpc, wpc, wres, regs, cbs, cblog, hist>>
 
+\* the registration a callback for name n belongs to: the last one logged (a duplicate send is refused and registers nothing)
+RECURSIVE LastReg(_, _)
+LastReg(n, j) == IF j = 0 THEN <<None, 0>>
+                 ELSE IF cblog[j][1] = n /\ cblog[j][2] = "reg" THEN <<cblog[j][3], cblog[j][4]>> ELSE LastReg(n, j - 1)
+Owner(n) == LastReg(n, Len(cblog))
+
 Cb ==                               \* OBSERVABLE: a completion callback runs (with a response / with an error)
   \/ /\ rpc = "dispatch"
-     /\ cbs' = [cbs EXCEPT ![rmsg] = @ + 1] /\ cblog' = Append(cblog, <<rmsg, "resp">>)
+     /\ cbs' = [cbs EXCEPT ![rmsg] = @ + 1] /\ cblog' = Append(cblog, <<rmsg, "resp", Owner(rmsg)[1], Owner(rmsg)[2]>>)
      /\ rpc' = "reading" /\ rmsg' = None
      /\ UNCHANGED <<pending, done>>
   \/ /\ rpc = "draining" /\ pending # {}
      /\ \E n \in pending :
           /\ pending' = pending \ {n}
-          /\ cbs' = [cbs EXCEPT ![n] = @ + 1] /\ cblog' = Append(cblog, <<n, "err">>)
+          /\ cbs' = [cbs EXCEPT ![n] = @ + 1] /\ cblog' = Append(cblog, <<n, "err", Owner(n)[1], Owner(n)[2]>>)
      /\ UNCHANGED <<rpc, rmsg, done>>
 
 CbStep == /\ Cb
